@@ -387,7 +387,26 @@ func finishC12(v *Verdict, sc *Scenario, o *Outcome, classes map[string]bool) *V
 		}
 		vc[kk+":"+k[1]] = true
 	}
-	v.Sig = "C12|" + strings.Join(opts, ",") + "|" + strings.Join(sortedKeys(vc), ",") + "|" + frag
+	// signature: IniOptions and read order of the first boot, fragmentation class and
+	// the rarest-looking (kind class : value class) pair written; all pairs are
+	// additionally counted as coverage cells
+	best := ""
+	rank := func(c string) int {
+		switch {
+		case strings.Contains(c, "str-ctl"), strings.Contains(c, "str-blank-edge"), strings.Contains(c, "str-quote"), strings.Contains(c, "str-long"):
+			return 3
+		case strings.Contains(c, "nil"), strings.Contains(c, "empty"):
+			return 2
+		}
+		return 1
+	}
+	for _, c := range sortedKeys(vc) {
+		v.stat(fmt.Sprintf("cell.%s|opts=%d", c, p.Boots[0].IniOpts))
+		if best == "" || rank(c) > rank(best) {
+			best = c
+		}
+	}
+	v.Sig = fmt.Sprintf("C12|opts=%d|%s|boots=%d|%s|%s", p.Boots[0].IniOpts, p.Boots[0].Order, len(p.Boots), frag, best)
 	v.NonTrivial = len(cs) > 0 && (multi || long || quoting)
 	return v
 }
